@@ -106,4 +106,21 @@ def Node.poolMaturityImpl (n : Node) (p : Params) (t : TxA) : Option Err :=
     txMaturityImpl p (replayP (genesisP g) rest) hpath (n.heightOf n.head + 1) t.ins
   | _, _ => some "NoPath"
 
+/-- `Chain::verify_coinbase_maturity(inputs)` since 34e76938f ("pool-facing coinbase maturity check
+follows the body chain"): the header MMR is used as it is only while the body head is ON the header
+chain (`header_pmmr.get_header_hash_by_height(head.height) == head.last_block_h`); otherwise - the
+headers of a heavier competing fork are known, its blocks are not - the header MMR is first rewound
+to the body head (`rewind_and_apply_fork(&head_header, ..)` inside a read-only extension), i.e. the
+cutoff header is looked up along the path of the body head. -/
+def Node.poolMaturityFixed (n : Node) (p : Params) (t : TxA) : Option Err :=
+  match n.path n.head, n.path n.hhead with
+  | some (g :: rest), some hpath =>
+    let headOnHeaderChain : Bool :=
+      match hpath[n.heightOf n.head]? with
+      | some b => b.id == n.head
+      | none => false
+    let hmmr := if headOnHeaderChain then hpath else g :: rest
+    txMaturityImpl p (replayP (genesisP g) rest) hmmr (n.heightOf n.head + 1) t.ins
+  | _, _ => some "NoPath"
+
 end GV.Chain
